@@ -123,11 +123,25 @@ func fixedCases(s gen.Service) [][][]byte {
 			{[]byte("RFB 003.008\n"), {1}, {1}, {0, 0, 0, 0, 8, 8, 0, 1, 0, 7, 0, 7, 0, 3, 0, 3, 6, 0, 0, 0}, upd, upd},
 		}
 	case "redis":
-		return [][][]byte{{[]byte("*0\r\n")}, {[]byte("*1\r\n$4\r\nPING\r\n")}, {[]byte("*1\r\n*0\r\n")}}
+		out := [][][]byte{{[]byte("*0\r\n")}, {[]byte("*1\r\n$4\r\nPING\r\n")}, {[]byte("*1\r\n*0\r\n")}}
+		for _, n := range gen.BoundaryNumbers { // declared element counts and bulk lengths
+			out = append(out, [][]byte{[]byte("*" + n + "\r\n")}, [][]byte{[]byte("*1\r\n$" + n + "\r\nPING\r\n")})
+		}
+		return out
+	case "memcached":
+		var out [][][]byte
+		for _, n := range gen.BoundaryNumbers {
+			out = append(out, [][]byte{[]byte("set k 0 0 " + n + "\r\nabc\r\n"), []byte("get k\r\n")})
+		}
+		return out
 	case "tftp":
 		return [][][]byte{{gen.TFTPPacket(2, "f", "octet"), append([]byte{0, 3, 0, 1}, make([]byte, 512)...), {0, 3, 0, 2}}}
 	case "smtp":
-		return [][][]byte{line("HELO x", "MAIL FROM:<a>", "BDAT"), line("EHLO x", "MAIL FROM:<a>", "RCPT TO:<b>", "DATA", "Subject: s", "", "b", ".", "QUIT")}
+		out := [][][]byte{line("HELO x", "MAIL FROM:<a>", "BDAT"), line("EHLO x", "MAIL FROM:<a>", "RCPT TO:<b>", "DATA", "Subject: s", "", "b", ".", "QUIT")}
+		for _, n := range gen.BoundaryNumbers {
+			out = append(out, line("HELO x", "MAIL FROM:<a>", "BDAT "+n+" LAST", "x"))
+		}
+		return out
 	case "adb":
 		return [][][]byte{{[]byte("CN")}, {[]byte("CNXN")}}
 	}
